@@ -169,7 +169,7 @@ def run(ctx):
         mcs += [("MC_Poll_pert_t.cfg", "N=3 priorities (1,1,2), setprio {1,2} / add front / back, K=1", True),
                 ("MC_Poll_hi.cfg", "N=2 (1,2), setprio {1,7} / add front / back / condition use (7 -> 5), K=1", True),
                 ("MC_Poll_self.cfg", "N=2 (1,8), priorities of both messages changed over {1,2,3,7,8,9} any number of times", True),
-                ("MC_Poll_readd_t.cfg", "N=3 (1,2,3) re-add + setprio {1,3} + front insertion, K=1", True)]
+                ("MC_Poll_readd_t.cfg", "N=3 (1,2,3) re-add + setprio of message 2 over {1,3} + front insertion, K=1", True)]
     mcs += [("MC_Poll_argmin.cfg", "vector top is arg-min under perturbation (design note, expected to be refuted)", False),
             ("MC_Poll_readd_pinned.cfg", "design before the repair of MessageMap::add (new instance keeps order 0): expected to be refuted", False)]
     for cfg, what, must in mcs:
@@ -183,7 +183,7 @@ def run(ctx):
             raise tlc.TlcFailure("the bound constants are refuted on the design (%s): adjust Poll.tla\n%s" % (cfg, r["out"][-1500:]))
 
     # 2. P on G + fidelity ---------------------------------------------------------------------------------------------
-    jobs = [Job("n2full", [1, 2], "ntsaf", [1, 2, 3], 2),
+    jobs = [Job("n2full", [1, 2], "ntsaf", [1, 2, 3], 1),
             Job("n3add", [1, 2, 3], "ntaf", [1, 2, 3], 2),
             Job("n3victim", [1, 2, 8], "nv", [8, 9], 1),
             Job("n2readd", [1, 2], "nr", [1, 2], 1, cap=12, maxnodes=8000)]
